@@ -1,6 +1,6 @@
 (* Non-vacuity: concrete, non-trivial values meeting the hypotheses of every theorem. *)
 From Coq Require Import String.
-From V Require Import Common.Base C15.Names C15.Renamer C15.Spec C15.NamesProofs C15.MinifyProofs C15.ResolveProofs C15.ScopeBuild C15.ScopeProg C15.ScopeResolveProofs C15.HoistedProofs C15.Harness.
+From V Require Import Common.Base C15.Names C15.Renamer C15.Spec C15.NamesProofs C15.MinifyProofs C15.ResolveProofs C15.ScopeBuild C15.ScopeProg C15.ScopeResolveProofs C15.MinifyResolveProofs C15.ComposeProofs C15.HoistedProofs C15.Harness.
 
 Example minname_ex : map (NumberToMinifiedName default_minifier) [0; 1; 53; 54; 55; 54 + 54 * 64; 1000000]
   = [[97]; [98]; [36]; [97;97]; [98;97]; [97;97;97]; [67;118;71;100]].
@@ -140,3 +140,20 @@ Proof. vm_compute. reflexivity. Qed.
 (* the inventory of hoisted import symbols is not empty (the obligation is not vacuous) *)
 Example hoisted_inventory_ex : (3 <= length gen.C15HoistedImportsGen.gen_hoisted_declared)%nat.
 Proof. exact hoisted_declared_nonempty. Qed.
+
+(* the minifier on prog_ex: every symbol counted once; all renamable declarations get a slot,
+   the pipeline succeeds, and both references resolve to their symbols under the new names *)
+Example resolution_minify_ex :
+  let '(m, st) := parse_forest prog_ex in
+  let '(slots, total) := AssignNestedScopeSlots st m in
+  match minify_rename 100 st slots total [0] (ComputeReservedNames st [m]) default_minifier []
+          [map (fun i => (i, 1)) (seq 0 (length st))] with
+  | Some m3 =>
+      (forallb (fun r => ns_eqb (sy_ns (getsym st r)) NsPinned ||
+                         match slot_of slots m3 r with Some _ => true | None => false end) (tree_decls m),
+       map (fun xE => env_get (rename_env (minify_name_for st slots m3) (snd xE))
+                              (match env_get (snd xE) (fst xE) with Some s => minify_name_for st slots m3 s | None => []%list end))
+           (parser_refs prog_ex))
+  | None => (false, [])
+  end = (true, [Some 3%nat; Some 0%nat]).
+Proof. vm_compute. reflexivity. Qed.
